@@ -179,7 +179,7 @@ def run_case(torch, gpytorch, c):
             res("mll", good and not torch.isnan(v).any(), "N * mll under mask differs from N_obs * mll of the deleted data set: " + why)
         model.eval()
         lik.eval()
-    if kind in ("single", "mtask"):
+    if kind in ("single", "mtask", "batch"):
         with torch.no_grad():
             fdist = model.forward(x)
             for p in ("mask", "fill"):
@@ -191,16 +191,24 @@ def run_case(torch, gpytorch, c):
                     continue
                 with settings.observation_nan_policy("ignore"):
                     full_e, full_l = lik.expected_log_prob(yfull, fdist), lik.log_marginal(yfull, fdist)
+                # which entries count: fill = per element; mask = an entry missing in any batch element is masked for the whole batch
+                eff = miss if (p == "fill" or not bshape) else miss.any(0, keepdim=True).expand_as(miss)
                 for nm, got, full in (("expected_log_prob", v[0], full_e), ("log_marginal", v[1], full_l)):
                     if torch.isnan(got).any():
                         res(nm, False, "%s: NaN in %s" % (p, nm))
                         continue
                     # elementwise terms: the sum over the observed entries must equal the sum of the deleted-data terms
                     if tshape:
-                        want = (torch.where(miss, torch.zeros_like(full_e_elem(torch, lik, yfull, fdist, nm)), full_e_elem(torch, lik, yfull, fdist, nm))).sum()
+                        elem = full_e_elem(torch, lik, yfull, fdist, nm)
+                        want = torch.where(eff, torch.zeros_like(elem), elem).sum()
+                        gsum = got.sum()
+                    elif bshape:
+                        want = torch.where(eff, torch.zeros_like(full), full).sum(-1)     # per batch element
+                        gsum = got.sum(-1)
                     else:
-                        want = full[~miss].sum()
-                    good, why = core.close(got.sum(), want, 1e-9, 1e-10)
+                        want = full[~eff].sum()
+                        gsum = got.sum()
+                    good, why = core.close(gsum, want, 1e-9, 1e-10)
                     res(nm, good, "%s: sum of %s terms differs from the sum over the observed entries: %s" % (p, nm, why))
     for r in results:
         if r.get("sample") is None:
